@@ -312,7 +312,8 @@ def _s3(prog, run):
     if len(loops) != 1:
         raise AnalysisError("C09.S3: unrecognised shape of %s" % m.qualname)
     lp = loops[0]
-    it = ast.unparse(lp.iter)
+    from ..canon import Canon as _Canon
+    it = _Canon(m.node).text(lp.iter)       # `entries = self._iterate_fields(...)` named first is the same iteration
     r.instance("loop `%s`" % norm_stmt(lp))
     if "_iterate_fields" not in it or any(w in it for w in ("sorted", "reversed", "set(", "[::-1]")):
         run.report(r, "%s:%s:iteration" % (BEXE, m.qualname), m.where(lp), "fields are not iterated in collection order: `%s`" % it)
